@@ -26,6 +26,9 @@ EXPLANATION = (
     "only {arg}, {src,dst}, {arg+descendants} and makedirs' bounded ancestor creation are accepted, upward ones (os.removedirs, os.renames, setContent's sibling, "
     "a mutation through parent()/dirname of a confined path) are violations, an unclassified primitive is an analysis error of that section, and the FilePath "
     "methods used are scanned for upward primitives. "
+    "(5) the str<->bytes coercion helpers FilePath.child() relies on (found from child() through its private calls) are pure re-encodings: they return their path argument, "
+    "that argument encoded / decoded, or another such helper applied to it - a helper that rewrites the text (normalisation, case folding, strip, replace) is a violation, "
+    "because containment is validated on the rewritten spelling of the root while the directory on disk keeps the original one. "
     "Not decided: symbolic links (excluded by the statement), FilePath.child itself (C26), the realm's choice of root. "
     "Every anchor function is also checked to be entered on every call (no memoising/wrapping decorator, duplicate definition or rebinding). "
     "Methods: structural for every clause; descendant() has a structural loop-shape decider (two idioms) and, as second layer and fallback when the loop shape is not recognised, a bounded evaluation on segment lists of length 0..3 (then that clause has bounded evidence only, noted in the evidence). "
@@ -636,6 +639,79 @@ def _s_footprints(ctx, S):
         raise AnalysisError("filesystem primitive with unknown footprint applied to a confined path: " + "; ".join(unknown[:3]))
 
 
+def _s_coercion(ctx, S):
+    """FilePath.child() checks containment on a string produced by the str<->bytes coercion helpers, while the root that exists on disk is the string the
+    FilePath was built with.  The check is only meaningful if those helpers are pure re-encodings: whatever they return is their path argument (or self.path)
+    itself, that value .encode()d / .decode()d, or the result of another such helper applied to it - never a rewritten text (normalised, case-folded, stripped,
+    replaced ...).  The helpers are discovered by role (what computes the containment base of child(), transitively), not by a list of names."""
+    mod = ctx.mod(FPM)
+    fpcls = ctx.cls(FPM, "FilePath")
+    mod_funcs = {st.name: st for st in mod.tree.body if isinstance(st, ast.FunctionDef)}
+
+    def resolve_callee(c):
+        f_ = c.func
+        if isinstance(f_, ast.Name) and f_.id.startswith("_") and f_.id in mod_funcs:
+            return f_.id, mod_funcs[f_.id]
+        if isinstance(f_, ast.Attribute) and isinstance(f_.value, ast.Name) and f_.value.id == "self" and f_.attr.startswith("_") and not f_.attr.startswith("__"):
+            r = mro_lookup(mod, fpcls, f_.attr)
+            if r and isinstance(r[1], ast.FunctionDef):
+                return f"{r[0].name}.{f_.attr}", r[1]
+        return None
+    start = mro_lookup(mod, fpcls, "child")
+    ctx.need(start and isinstance(start[1], ast.FunctionDef), "FilePath.child")
+    # the helpers that produce the CONTAINMENT BASE: in child() the text the new path is compared with (`<new>.startswith(<base>...)`) comes from a private
+    # helper applied to self; that helper and everything it calls are the coercion helpers (a join helper such as abspath(joinpath(..)) is not one of them)
+    child_fn = start[1]
+    bases = [a for c in ast.walk(child_fn) if isinstance(c, ast.Call) and call_attr(c) == "startswith" and c.args for a in c.args[:1]]
+    roots = []
+    for b in bases:
+        for nm_ in [x for x in ast.walk(b) if isinstance(x, ast.Name)]:
+            for v, _, _ in leaf_values(child_fn, nm_):
+                if isinstance(v, ast.Call) and resolve_callee(v):
+                    roots.append(resolve_callee(v))
+    ctx.need(roots, "the containment base of FilePath.child (<new>.startswith(<base>)) computed by a private helper")
+    helpers = {q_: f_ for q_, f_ in roots}
+    todo = [f_ for _, f_ in roots]
+    while todo:
+        fn = todo.pop()
+        for c in ast.walk(fn):
+            if isinstance(c, ast.Call):
+                r = resolve_callee(c)
+                if r and r[0] not in helpers:
+                    helpers[r[0]] = r[1]
+                    todo.append(r[1])
+    ctx.floor("coercion/pure-re-encoding", len(helpers), 3, "coercion helpers reached from FilePath.child")
+    for qual, fn in sorted(helpers.items()):
+        ps = set(params(fn)) - {"self", "encoding"}
+        g = ctx.cfg(fn)
+
+        def is_path(e):
+            return (isinstance(e, ast.Name) and e.id in ps) or src(e) == "self.path"
+
+        def pure(e):
+            if is_path(e):
+                return None
+            if isinstance(e, ast.Call) and isinstance(e.func, ast.Attribute) and e.func.attr in ("encode", "decode") and is_path(e.func.value):
+                return None
+            if isinstance(e, ast.Call) and resolve_callee(e) and resolve_callee(e)[0] in helpers:
+                pos = [a for a in e.args]
+                return next((a for a in pos if not (is_path(a) or isinstance(a, ast.Constant) or src(a) == "encoding")), None)
+            return e
+        nret = 0
+        for x in normal_exits(g):
+            st = g.node(x).ast
+            if not (isinstance(st, ast.Return) and st.value is not None):
+                continue
+            for v, _, _ in leaf_values(fn, st.value):
+                nret += 1
+                bad = pure(v)
+                ctx.check(bad is None, "coercion/pure-re-encoding", ctx.construct("twisted.python.filepath." + qual, "return <coerced path>"),
+                          f"the coercion helper returns {src(bad) if bad is not None else ''}: not its path argument, that argument encoded / decoded, or another coercion helper applied "
+                          f"to it.  FilePath.child() then validates containment on a rewritten spelling of the root while the directory on disk keeps the original one: every FTP "
+                          f"path is resolved below a different (sibling) directory than the shell's root")
+        ctx.check(nret > 0, "coercion/pure-re-encoding", "twisted.python.filepath." + qual, "the coercion helper returns nothing")
+
+
 def _s_body(ctx, S):
     why = "path normalisation / containment is performed by this body on every command; a memoising or wrapping decorator can hand back a path computed for another call"
     body_always_entered(ctx, FTPM, ["toSegments", "FTPAnonymousShell._path"], "anchor/body-entered-on-every-call", "twisted.protocols.ftp", why)
@@ -646,7 +722,7 @@ def check(ctx):
     normalise(ctx, {FTPM: ["_path", "_statNode", "_encodeName", "_isGlobbingExpression"], FPM: []},
               scopes={FTPM: ["FTP", "FTPAnonymousShell", "FTPShell", "toSegments"], FPM: ["AbstractFilePath.descendant"]})
     run_sections(ctx, [("protocol", _s_protocol), ("working-directory", _s_cwd), ("toSegments", _s_tosegments), ("invalid-path", _s_invalid_path), ("_path", _s_path),
-                       ("descendant", _s_descendant), ("_path-only", _s_path_only), ("shell-sinks", _s_sinks), ("shell-footprints", _s_footprints), ("body-entered", _s_body)])
+                       ("descendant", _s_descendant), ("_path-only", _s_path_only), ("shell-sinks", _s_sinks), ("shell-footprints", _s_footprints), ("path-coercion", _s_coercion), ("body-entered", _s_body)])
 
 
 _F = FTPM
@@ -680,6 +756,10 @@ MUTANTS = [
            expect_rule="shell/"),
     Mutant("stor-through-setContent-sibling", _F, "            fObj = p.open(\"w\")\n", "            p.setContent(b\"\")\n            fObj = p.open(\"w\")\n", expect_rule="shell/footprint-within-subtree"),
     Mutant("rename-with-cross-device-fallback", _F, "            os.rename(fp.path, tp.path)", "            fp.moveTo(tp)", expect_rule="shell/footprint-within-subtree"),
+    Mutant("coercion-case-folds-text-paths", FPM, "    if isinstance(path, str):\n        return path\n    else:\n        if encoding is None:", "    if isinstance(path, str):\n        return path.casefold()\n    else:\n        if encoding is None:",
+           expect_rule="coercion/pure-re-encoding"),
+    Mutant("coercion-strips-trailing-separator", FPM, "        return path.encode(encoding, errors=\"surrogateescape\")", "        return path.rstrip(\"/\").encode(encoding, errors=\"surrogateescape\")",
+           expect_rule="coercion/pure-re-encoding"),
     Mutant("list-stats-from-root", _F, "            fileEntries = [filePath.child(p) for p in entries]", "            fileEntries = [self.filesystemRoot.preauthChild(os.path.join(*path, p)) for p in entries]", expect_rule="shell/"),
 ]
 SILENT = [
@@ -692,6 +772,8 @@ SILENT = [
     Silent("mkd-with-os-makedirs", _F, "        try:\n            p.makedirs()\n        except OSError as e:", "        try:\n            os.makedirs(p.path)\n        except OSError as e:"),
     Silent("descendant-with-explicit-iterator", FPM, "        for name in segments:\n            path = path.child(name)\n        return path",
            "        pending = iter(segments)\n        while True:\n            try:\n                name = next(pending)\n            except StopIteration:\n                return path\n            path = path.child(name)"),
+    Silent("coercion-decodes-into-a-local-first", FPM, "        if encoding is None:\n            encoding = sys.getfilesystemencoding()\n        return path.decode(encoding, errors=\"surrogateescape\")",
+           "        if encoding is None:\n            encoding = sys.getfilesystemencoding()\n        text = path.decode(encoding, errors=\"surrogateescape\")\n        return text"),
     Silent("cwd-copied-with-list", _F, "        segs = cwd[:]\n", "        segs = list(cwd)\n"),
     Silent("toSegments-guard-clauses-and-temporaries", _F,
            "    if path.startswith(\"/\"):\n        segs = []\n    else:\n        segs = cwd[:]\n\n    for s in path.split(\"/\"):\n        if s == \".\" or s == \"\":\n            continue\n        elif s == \"..\":\n            if segs:\n                segs.pop()\n            else:\n                raise InvalidPath(cwd, path)\n        elif \"\\0\" in s or \"/\" in s:\n            raise InvalidPath(cwd, path)\n        else:\n            segs.append(s)\n    return segs\n",
